@@ -62,7 +62,7 @@ def _k1():
 
 
 def sizes(ctx):
-  return ctx.n(10, 120), ctx.n(8, 12)
+  return ctx.n(18, 120), ctx.n(8, 12)
 
 
 def correspond(ctx):
